@@ -57,6 +57,29 @@ fn parse_ev(v: &Value) -> Ev {
     }
 }
 
+fn enabled_events(ends: &[[VConnection; 2]; 2], added: &BTreeMap<(usize, usize), bool>, exited: &[(usize, usize)]) -> Vec<Ev> {
+    let closed = |s: usize, k: usize| ends[s][k].close_reason().is_some();
+    let mut enabled = vec![];
+    for side in 0..2 {
+        for k in 0..2 {
+            if !added.contains_key(&(side, k)) {
+                enabled.push(Ev::Add { side, k });
+            }
+        }
+    }
+    for side in 0..2 {
+        for k in 0..2 {
+            if added.get(&(side, k)) == Some(&true) && !exited.contains(&(side, k)) && closed(side, k) {
+                enabled.push(Ev::Exit { side, k });
+            }
+        }
+    }
+    if (0..2).any(|k| closed(0, k) != closed(1, k)) {
+        enabled.push(Ev::Settle);
+    }
+    enabled
+}
+
 struct Side {
     id: PeerId,
     reg: VActivePeers,
@@ -76,7 +99,10 @@ struct PathEnd {
 
 type Fail = (String, String);
 
-async fn run_path(a: &VEndpoint, b: &VEndpoint, path: &[Ev]) -> Result<PathEnd, Fail> {
+/// `gap_after`: after that many events the thread sleeps 1.2 s of WALL-CLOCK time (the simulation's
+/// clock is virtual; anything in the subject that reads the wall clock sees connections age);
+/// `drain`: after the listed events, keep firing the first enabled event until quiescence.
+async fn run_path(a: &VEndpoint, b: &VEndpoint, path: &[Ev], gap_after: Option<usize>, drain: bool) -> Result<PathEnd, Fail> {
     let eps = [a, b];
     // c1: A dials B; c2: B dials A. ends[side][k]
     let (c1a, c1b) = tokio::join!(a.connect(b.local_addr(), None), b.accept());
@@ -96,14 +122,26 @@ async fn run_path(a: &VEndpoint, b: &VEndpoint, path: &[Ev]) -> Result<PathEnd, 
             Side { id: e.peer_id(), reg, rx, replica: false, events: vec![] }
         })
         .collect();
-    let ctx = |upto: usize| format!("[{} < {}] events {:?}", if sides_lt(eps) { "A" } else { "B" }, if sides_lt(eps) { "B" } else { "A" }, path[..upto].iter().map(ev_str).collect::<Vec<_>>());
+    let mut path: Vec<Ev> = path.to_vec();
+    let gap_note = match gap_after {
+        Some(0) => " (1.1 s of wall-clock time pass between the registrations)".to_string(),
+        Some(g) => format!(" (1.1 s of wall-clock time pass before event {g})"),
+        None => String::new(),
+    };
+    let ctx = |upto: usize, path: &Vec<Ev>| format!("[{} < {}] events {:?}{gap_note}", if sides_lt(eps) { "A" } else { "B" }, if sides_lt(eps) { "B" } else { "A" }, path[..upto.min(path.len())].iter().map(ev_str).collect::<Vec<_>>());
     fn sides_lt(eps: [&VEndpoint; 2]) -> bool {
         eps[0].peer_id() < eps[1].peer_id()
     }
     let mut added: BTreeMap<(usize, usize), bool> = BTreeMap::new();
     let mut exited: Vec<(usize, usize)> = vec![];
-    for (i, ev) in path.iter().enumerate() {
-        match *ev {
+    let mut i = 0usize;
+    while i < path.len() {
+        let ev = path[i];
+        // Some(0) = before each of the events 1, 2 and 3
+        if gap_after == Some(i) || (gap_after == Some(0) && (1..=3).contains(&i)) {
+            std::thread::sleep(Duration::from_millis(1_100));
+        }
+        match ev {
             Ev::Add { side, k } => {
                 let ok = sides[side].reg.add(&sides[side].id, &ends[side][k]);
                 added.insert((side, k), ok);
@@ -126,52 +164,41 @@ async fn run_path(a: &VEndpoint, b: &VEndpoint, path: &[Ev]) -> Result<PathEnd, 
                     Ok(PeerEvent::NewPeer(p)) => {
                         sides[s].events.push("New".into());
                         if p != other || sides[s].replica {
-                            return Err(("event-log".into(), format!("{}: side {} got NewPeer({p:?}) while its change log already lists the peer (or for a stranger)", ctx(i + 1), ["A", "B"][s])));
+                            return Err(("event-log".into(), format!("{}: side {} got NewPeer({p:?}) while its change log already lists the peer (or for a stranger)", ctx(i + 1, &path), ["A", "B"][s])));
                         }
                         sides[s].replica = true;
                     }
                     Ok(PeerEvent::LostPeer(p, _)) => {
                         sides[s].events.push("Lost".into());
                         if p != other || !sides[s].replica {
-                            return Err(("event-log".into(), format!("{}: side {} got LostPeer({p:?}) for a peer its change log does not list", ctx(i + 1), ["A", "B"][s])));
+                            return Err(("event-log".into(), format!("{}: side {} got LostPeer({p:?}) for a peer its change log does not list", ctx(i + 1, &path), ["A", "B"][s])));
                         }
                         sides[s].replica = false;
                     }
                     Err(broadcast::error::TryRecvError::Empty) => break,
-                    Err(e) => return Err(("event-log".into(), format!("{}: subscription of side {s} failed: {e}", ctx(i + 1)))),
+                    Err(e) => return Err(("event-log".into(), format!("{}: subscription of side {s} failed: {e}", ctx(i + 1, &path)))),
                 }
             }
             let listed = sides[s].reg.peers();
             if listed.len() > 1 || listed.iter().any(|p| *p != other) {
-                return Err(("listing".into(), format!("{}: side {} lists {listed:?}", ctx(i + 1), ["A", "B"][s])));
+                return Err(("listing".into(), format!("{}: side {} lists {listed:?}", ctx(i + 1, &path), ["A", "B"][s])));
             }
             if (listed.len() == 1) != sides[s].replica {
-                return Err(("event-log".into(), format!("{}: side {} lists {} peer(s) but snapshot + events give {}", ctx(i + 1), ["A", "B"][s], listed.len(), sides[s].replica as u8)));
+                return Err(("event-log".into(), format!("{}: side {} lists {} peer(s) but snapshot + events give {}", ctx(i + 1, &path), ["A", "B"][s], listed.len(), sides[s].replica as u8)));
+            }
+        }
+        i += 1;
+        if drain && i == path.len() && path.len() < 16 {
+            if let Some(next) = enabled_events(&ends, &added, &exited).first() {
+                path.push(*next);
             }
         }
     }
     // what is enabled now
     let closed = |s: usize, k: usize| ends[s][k].close_reason().is_some();
-    let mut enabled = vec![];
-    for side in 0..2 {
-        for k in 0..2 {
-            if !added.contains_key(&(side, k)) {
-                enabled.push(Ev::Add { side, k });
-            }
-        }
-    }
-    for side in 0..2 {
-        for k in 0..2 {
-            if added.get(&(side, k)) == Some(&true) && !exited.contains(&(side, k)) && closed(side, k) {
-                enabled.push(Ev::Exit { side, k });
-            }
-        }
-    }
-    if (0..2).any(|k| closed(0, k) != closed(1, k)) {
-        enabled.push(Ev::Settle);
-    }
+    let enabled = enabled_events(&ends, &added, &exited);
     if matches!(path.last(), Some(Ev::Settle)) && (0..2).any(|k| closed(0, k) != closed(1, k)) {
-        return Err(("setup".into(), format!("{}: a close did not reach the other end within the settle time", ctx(path.len()))));
+        return Err(("setup".into(), format!("{}: a close did not reach the other end within the settle time", ctx(path.len(), &path))));
     }
     let held = |s: usize| -> Option<usize> {
         let c = sides[s].reg.get(&sides[1 - s].id)?;
@@ -192,7 +219,7 @@ async fn run_path(a: &VEndpoint, b: &VEndpoint, path: &[Ev]) -> Result<PathEnd, 
     let mut final_class = None;
     if enabled.is_empty() {
         // quiescent: the convergence oracle
-        let c = ctx(path.len());
+        let c = ctx(path.len(), &path);
         let (ha, hb) = (held(0), held(1));
         let expected = if sides[0].id > sides[1].id { 0 } else { 1 }; // c1 is dialed by A, c2 by B
         match (ha, hb) {
@@ -248,7 +275,8 @@ async fn pair_world(_sim: Arc<Sim>, unit: Value) -> PairObs {
     };
     let (a, b) = (mk(ka), mk(kb));
     let prefix: Vec<Ev> = unit["prefix"].as_array().unwrap().iter().map(parse_ev).collect();
-    let single = unit["single"].as_bool().unwrap_or(false);
+    let single = unit["single"].as_bool().unwrap_or(false) || unit["gap_after"].is_u64();
+    let gap_after = unit["gap_after"].as_u64().map(|g| g as usize);
     let mut obs = PairObs::default();
     let mut stack = vec![prefix];
     while let Some(path) = stack.pop() {
@@ -256,7 +284,7 @@ async fn pair_world(_sim: Arc<Sim>, unit: Value) -> PairObs {
         obs.nodes += 1;
         obs.transitions += path.len() as u64;
         obs.max_len = obs.max_len.max(path.len());
-        match run_path(&a, &b, &path).await {
+        match run_path(&a, &b, &path, gap_after, gap_after.is_some()).await {
             Ok(end) => {
                 obs.states.insert(end.state);
                 if let Some(c) = end.final_class {
@@ -304,6 +332,16 @@ pub fn units(_thorough: bool) -> Vec<Value> {
                 }
                 // first add followed by settle / exit cannot happen: nothing is closed yet
             }
+        }
+    }
+    // every order of the four registrations again, with wall-clock time passing between them
+    // (then drained greedily): connections must not be judged by their age
+    let perms = crate::explore::permutations(4);
+    for a_greater in [false, true] {
+        for p in &perms {
+            let ends = [(0usize, 0usize), (0, 1), (1, 0), (1, 1)];
+            let prefix: Vec<Value> = p.iter().map(|i| json!(["add", ends[*i].0, ends[*i].1])).collect();
+            u.push(json!({"kind":"pair","a_greater":a_greater,"prefix":prefix,"gap_after":0}));
         }
     }
     u
